@@ -2500,10 +2500,9 @@ impl InferContext {
                         let _rel = self.unify_types(field_type, value_type)?;
                         Ok(unit!())
                     }
-                    Expr::ArrayAccess(_, _) => {
-                        unimplemented!("Assignment to array is not implemented yet.")
-                    }
                     _ => {
+                        // Assignment to an array element (`a[0] = x`) is not implemented: it is
+                        // reported like any other invalid target instead of panicking.
                         // This should be caught by parser, but add a generic error just in case
                         Err(vec![Error::VariableNotFound(
                             "invalid_assignment_target".to_symbol(),
